@@ -399,4 +399,302 @@ theorem struct_class (env : Env) (ty : Ty)
               subst hgf
               cases f1 <;> simp at hfits' ⊢ <;> exact ⟨by omega, by omega, by omega, by omega⟩
 
+
+/-- one argument: the popping loop pops exactly what `push_args2` pushed for it in the register
+    pass, and the two loops' counters stay equivalent -/
+theorem popArg_spec (env : Env) (ty : Ty) {gpc fpc gpp fpp : Int} {b : Bool} {gpc' fpc' k : Int}
+    (he : Eqv gpc fpc gpp fpp) (hs : ty.isStructOrUnion = true → 1 ≤ ty.size)
+    (hc : classifyArgE env ty gpc fpc = .ok (b, gpc', fpc', k)) :
+    (k = if b then slots ty else 0) ∧
+    Sem (popArg env ty gpp fpp) (8 * (if b then 0 else slots ty)) 0 (-(if b then 0 else slots ty)) ∧
+    Ret (popArg env ty gpp fpp) (fun gf => Eqv gpc' fpc' gf.1 gf.2) := by
+  unfold classifyArgE at hc
+  unfold popArg slots
+  cases hk : ty.kind <;> simp only [hk] at hc ⊢
+  case struct => exact struct_class env ty he (hs (by simp [Ty.isStructOrUnion, hk])) hc
+  case union => exact struct_class env ty he (hs (by simp [Ty.isStructOrUnion, hk])) hc
+  case float => exact fp_class he hc
+  case double => exact fp_class he hc
+  case ldouble =>
+    simp only [pure, Except.pure, Except.ok.injEq, Prod.mk.injEq] at hc
+    obtain ⟨rfl, rfl, rfl, rfl⟩ := hc
+    exact ⟨rfl, (Sem_pure _).cast (by simp) rfl (by simp), Ret_pure he⟩
+  all_goals exact gp_class he hc
+
+theorem classifyArgE_nonneg {env : Env} {ty : Ty} {gpc fpc : Int} {b : Bool} {gpc' fpc' k : Int}
+    (hc : classifyArgE env ty gpc fpc = .ok (b, gpc', fpc', k)) (h1 : 0 ≤ gpc) (h2 : 0 ≤ fpc) :
+    0 ≤ gpc' ∧ 0 ≤ fpc' := by
+  unfold classifyArgE at hc
+  have hstruct : (if ty.size > 16 then (do
+        let sz ← alignTo ty.size 8
+        pure (true, gpc, fpc, sz.tdiv 8) : Except String _)
+      else do
+        let (fits, ngp, nfp) ← structInRegsE env ty gpc fpc
+        if fits then pure (false, gpc + ngp, fpc + nfp, 0)
+        else do
+          let sz ← alignTo ty.size 8
+          pure (true, gpc, fpc, sz.tdiv 8)) = .ok (b, gpc', fpc', k) → 0 ≤ gpc' ∧ 0 ≤ fpc' := by
+    intro hcr
+    by_cases hbig : ty.size > 16
+    · simp only [hbig, if_true, alignTo8, bind, Except.bind, pure, Except.pure, Except.ok.injEq, Prod.mk.injEq] at hcr
+      obtain ⟨_, rfl, rfl, _⟩ := hcr
+      exact ⟨h1, h2⟩
+    · simp only [hbig, if_false] at hcr
+      cases hsr : structInRegsE env ty gpc fpc with
+      | error e => simp [hsr, bind, Except.bind] at hcr
+      | ok r =>
+        obtain ⟨fits, ngp, nfp⟩ := r
+        simp only [hsr, bind, Except.bind] at hcr
+        unfold structInRegsE at hsr
+        cases hcls : structClsE env ty with
+        | error e => simp [hcls] at hsr
+        | ok c =>
+          obtain ⟨ngp0, nfp0⟩ := c
+          simp only [hcls, Except.ok.injEq, Prod.mk.injEq] at hsr
+          obtain ⟨_, rfl, rfl⟩ := hsr
+          obtain ⟨f1, _, hrest⟩ := structCls_ok hcls
+          have hn0 : 0 ≤ ngp0 ∧ 0 ≤ nfp0 := by
+            by_cases h8 : ty.size > 8
+            · simp only [h8, if_true] at hrest
+              obtain ⟨f2, _, e1, e2⟩ := hrest
+              subst e1 e2
+              cases f1 <;> cases f2 <;> simp
+            · simp only [h8, if_false] at hrest
+              obtain ⟨e1, e2⟩ := hrest
+              subst e1 e2
+              cases f1 <;> simp
+          cases fits with
+          | false =>
+            simp only [Bool.false_eq_true, if_false, alignTo8, pure, Except.pure, Except.ok.injEq, Prod.mk.injEq] at hcr
+            obtain ⟨_, rfl, rfl, _⟩ := hcr
+            exact ⟨h1, h2⟩
+          | true =>
+            simp only [if_true, pure, Except.pure, Except.ok.injEq, Prod.mk.injEq] at hcr
+            obtain ⟨_, rfl, rfl, _⟩ := hcr
+            exact ⟨by omega, by omega⟩
+  cases hk : ty.kind <;> simp only [hk] at hc
+  case struct => exact hstruct hc
+  case union => exact hstruct hc
+  case float =>
+    by_cases hg : fpc ≥ FP_MAX <;> simp only [hg, if_true, if_false, pure, Except.pure, Except.ok.injEq, Prod.mk.injEq] at hc <;>
+      obtain ⟨_, rfl, rfl, _⟩ := hc <;> exact ⟨by omega, by omega⟩
+  case double =>
+    by_cases hg : fpc ≥ FP_MAX <;> simp only [hg, if_true, if_false, pure, Except.pure, Except.ok.injEq, Prod.mk.injEq] at hc <;>
+      obtain ⟨_, rfl, rfl, _⟩ := hc <;> exact ⟨by omega, by omega⟩
+  case ldouble =>
+    simp only [pure, Except.pure, Except.ok.injEq, Prod.mk.injEq] at hc
+    obtain ⟨_, rfl, rfl, _⟩ := hc
+    exact ⟨h1, h2⟩
+  all_goals
+    (by_cases hg : gpc ≥ GP_MAX <;> simp only [hg, if_true, if_false, pure, Except.pure, Except.ok.injEq, Prod.mk.injEq] at hc <;>
+      obtain ⟨_, rfl, rfl, _⟩ := hc <;> exact ⟨by omega, by omega⟩)
+
+/-- struct/union arguments have at least one byte (outside: known finding C20-empty-struct-arg) -/
+def StructArgsOK (tys : List (Option Ty)) : Prop :=
+  ∀ t, some t ∈ tys → t.isStructOrUnion = true → 1 ≤ t.size
+
+theorem popArgs_spec (env : Env) : ∀ (args : List Arg) (gpc fpc gpp fpp stack : Int) (flags : List Bool) (st : Int),
+    Eqv gpc fpc gpp fpp → StructArgsOK (args.map (·.ty)) →
+    classifyArgsE env (args.map (·.ty)) gpc fpc stack = .ok (flags, st) →
+    flags.length = args.length ∧ st = stack + selSlots (args.zip flags) true ∧
+    Sem (popArgs env args gpp fpp) (8 * selSlots (args.zip flags) false) 0 (-(selSlots (args.zip flags) false))
+  | [], _, _, _, _, stack, flags, st, _, _, hc => by
+    simp only [List.map_nil, classifyArgsE, Except.ok.injEq, Prod.mk.injEq] at hc
+    obtain ⟨rfl, rfl⟩ := hc
+    unfold popArgs
+    simp only [List.zip_nil_right, selSlots]
+    exact ⟨rfl, by omega, (Sem_pure _).cast (by omega) rfl (by omega)⟩
+  | arg :: rest, gpc, fpc, gpp, fpp, stack, flags, st, he, hs, hc => by
+    simp only [List.map_cons, classifyArgsE] at hc
+    cases hty : arg.ty with
+    | none => simp [hty] at hc
+    | some ty =>
+      simp only [hty] at hc
+      cases hca : classifyArgE env ty gpc fpc with
+      | error e => simp [hca] at hc
+      | ok r =>
+        obtain ⟨b, gpc', fpc', k⟩ := r
+        simp only [hca] at hc
+        cases hrec : classifyArgsE env (rest.map (·.ty)) gpc' fpc' (stack + k) with
+        | error e => simp [hrec] at hc
+        | ok r2 =>
+          obtain ⟨bs, st2⟩ := r2
+          simp only [hrec, Except.ok.injEq, Prod.mk.injEq] at hc
+          obtain ⟨rfl, rfl⟩ := hc
+          have hs1 : ty.isStructOrUnion = true → 1 ≤ ty.size :=
+            hs ty (by simp [hty])
+          obtain ⟨hk, hsem, hret⟩ := popArg_spec env ty he hs1 hca
+          have hsr : StructArgsOK (rest.map (·.ty)) := fun t ht => hs t (by simp only [List.map_cons]; exact List.mem_cons_of_mem _ ht)
+          unfold popArgs
+          simp only [List.zip_cons_cons, selSlots, hty, slotsO, List.length_cons]
+          have key : ∀ gf : Int × Int, Eqv gpc' fpc' gf.1 gf.2 →
+              bs.length = rest.length ∧ st2 = stack + k + selSlots (rest.zip bs) true ∧
+              Sem (popArgs env rest gf.1 gf.2) (8 * selSlots (rest.zip bs) false) 0 (-(selSlots (rest.zip bs) false)) :=
+            fun gf hgf => popArgs_spec env rest gpc' fpc' gf.1 gf.2 (stack + k) bs st2 hgf hsr hrec
+          -- the facts that do not depend on the popped registers
+          have hn' := classifyArgE_nonneg hca he.1 he.2.1
+          have h0 := key (min gpc' 6, min fpc' 8) ⟨hn'.1, hn'.2, rfl, rfl⟩
+          refine ⟨by omega, ?_, ?_⟩
+          · have := h0.2.1
+            cases b <;> simp at hk ⊢ <;> omega
+          · refine Sem_needTy_bind fun ty' hty' => ?_
+            simp only [Option.some.injEq] at hty'
+            subst hty'
+            refine (Sem_bind_ret hsem hret (fun gf hgf => (key gf hgf).2.2)).cast ?_ ?_ ?_
+            · cases b <;> simp <;> omega
+            · omega
+            · cases b <;> simp <;> omega
+
+
+/-! ### the whole call sequence -/
+
+/-- `node->ret_buffer && node->ty->size > 16`, as a value -/
+def bigV (i : NInfo) (rb : Option Var) : Bool :=
+  match rb, i.ty with
+  | some _, some ty => ty.size > 16
+  | _, _ => false
+
+theorem Ret_bigRet (i : NInfo) (rb : Option Var) : Ret (bigRet i rb) (fun b => b = bigV i rb) := by
+  unfold bigRet bigV
+  cases rb with
+  | none => exact Ret_pure rfl
+  | some v =>
+    cases hty : i.ty with
+    | none =>
+      intro s a s' ls hm
+      simp [bind, M.bind, needTy, nullDeref, fail] at hm
+    | some ty =>
+      simp only [needTy, M_pure_bind]
+      exact Ret_pure rfl
+
+theorem Sem_bigRet (i : NInfo) (rb : Option Var) : Sem (bigRet i rb) 0 0 0 := by
+  unfold bigRet
+  sem
+
+theorem delta_retBytes (reg1 reg2 : String) (h2 : reg2 ≠ "%rsp") (off : Int) (i n : Nat) :
+    delta (retBytes reg1 reg2 off i n) = some ⟨0, 0⟩ := by
+  induction n generalizing i with
+  | zero => simp [retBytes, delta, H.zero]
+  | succ n ih =>
+    have h1 : lineDelta (ins2 "mov" (.r reg1) (rbp (off + ↑i))) = some ⟨0, 0⟩ := by rfl
+    have h3 : lineDelta (ins2 "shr" (.i 8) (.r reg2)) = some ⟨0, 0⟩ := by
+      simp [lineDelta, ins2, insDelta, dstIsRsp, isRsp, h2, x87Push, x87Pop, x87Same, plainOps]
+    simp [retBytes, delta, h1, h3, ih]
+
+theorem Sem_retBytes (reg1 reg2 : String) (h2 : reg2 ≠ "%rsp") (off : Int) (i n : Nat) :
+    Sem (emits (retBytes reg1 reg2 off i n)) 0 0 0 :=
+  Sem_emits (delta_retBytes reg1 reg2 h2 off i n)
+
+macro_rules
+  | `(tactic| sem_leaf) => `(tactic| first
+      | exact Sem_retBytes _ _ (by decide) _ _ _
+      | exact Sem_bigRet _ _)
+
+theorem Sem_copyRetBuffer (env : Env) (var : Var) : Sem (copyRetBuffer env var) 0 0 0 := by
+  unfold copyRetBuffer hasFlonum1 hasFlonum2
+  sem
+
+
+/-- `sem`, remembering what `needTy` returned -/
+syntax "sem_ty" : tactic
+macro_rules
+  | `(tactic| sem_ty) => `(tactic| repeat' (first
+      | exact Sem_fail _
+      | exact Sem_nullDeref _
+      | (refine Sem.cast (by sem_leaf) ?_ ?_ ?_ <;> sem_arith)
+      | (refine Sem_needTy_bind (fun _ hty => ?_); simp only [hty, xOf_some] at *)
+      | (refine Sem_bind_td (by sem_leaf) (fun _ => ?_))
+      | dsimp only
+      | split
+      | (exfalso; simp_all; done)))
+
+theorem mem_zip_fst {α β : Type} {a : α} {b : β} {l1 : List α} {l2 : List β} (h : (a, b) ∈ l1.zip l2) : a ∈ l1 :=
+  (List.of_mem_zip h).1
+
+/-- **the call sequence is balanced**: for every argument list (struct arguments of at least one
+    byte), whatever the callee expression, with or without a return buffer, for every parity of
+    `depth` -/
+theorem Sem_funcallArm (env : Env) (i : NInfo) {isAlloca : M Bool} {fn : M Unit} (rb : Option Var)
+    (args : List Arg) (hia : Sem isAlloca 0 0 0) (hna : Ret isAlloca (fun b => b = false))
+    (hfn : Sem fn 0 0 0) (hargs : ∀ a ∈ args, Sem a.gen 0 (xOf a.ty) 0)
+    (hs : StructArgsOK (args.map (·.ty))) :
+    Sem (funcallArm env i isAlloca fn rb args) 0 (xOf i.ty) 0 := by
+  unfold funcallArm
+  refine (Sem_bind_ret hia hna (fun b hb => ?_)).cast (r := 0 + 0) (x := 0 + xOf i.ty) (d := 0 + 0)
+    (by omega) (by omega) (by omega)
+  subst hb
+  simp only [Bool.false_eq_true, if_false]
+  unfold pushArgs
+  simp only [M_bind_assoc]
+  refine (Sem_bind_ret (Sem_bigRet i rb) (Ret_bigRet i rb) (fun big hbig => ?_)).cast (r := 0 + 0)
+    (x := 0 + xOf i.ty) (d := 0 + 0) (by omega) (by omega) (by omega)
+  subst hbig
+  unfold classifyArgs
+  refine Sem_liftE_bind fun fs hfs => ?_
+  obtain ⟨flags, stack⟩ := fs
+  simp only
+  have heqv : Eqv (if bigV i rb = true then 1 else 0) 0 (if bigV i rb = true then 1 else 0) 0 := by
+    cases bigV i rb <;> exact ⟨by decide, by decide, by decide, by decide⟩
+  obtain ⟨_, hst, hpop⟩ := popArgs_spec env args _ 0 _ 0 0 flags stack heqv hs hfs
+  have hz : ∀ ab ∈ args.zip flags, Sem ab.1.gen 0 (xOf ab.1.ty) 0 :=
+    fun ab hab => hargs ab.1 (mem_zip_fst (b := ab.2) hab)
+  have hp1 := Sem_pushArgs2 (args.zip flags) true hz
+  have hp2 := Sem_pushArgs2 (args.zip flags) false hz
+  have hbr := Sem_bigRet i rb
+  refine Sem_bind0 Sem_getDepth (fun depth => ?_)
+  -- the second evaluation of `node->ret_buffer && node->ty->size > 16` gives the same answer
+  have hrest : ∀ (st' : Int) (al : Int), st' = stack + al →
+      Sem (do
+        fn
+        let big ← bigRet i rb
+        let gp0 : Int ← if big then do popGp 0; pure 1 else pure 0
+        let (_, fp) ← popArgs env args gp0 0
+        emit (ins2 "mov" rax (.r "%r10"))
+        emit (ins2 "mov" (.i fp) rax)
+        let ty ← needTy "node->ty" i.ty
+        if ty.kind == .ldouble then emit (.insA ⟨"call", [.s "*%r10"]⟩ "ret:f80")
+        else emit (ins1 "call" (.s "*%r10"))
+        emit (ins2 "add" (.i (st' * 8)) rsp)
+        addDepth (-st')
+        match ty.kind with
+        | .bool => emit (ins2 "movzx" (.r "%al") (.r "%eax"))
+        | .char =>
+          if ty.isUnsigned then emit (ins2 "movzbl" (.r "%al") (.r "%eax"))
+          else emit (ins2 "movsbl" (.r "%al") (.r "%eax"))
+        | .short =>
+          if ty.isUnsigned then emit (ins2 "movzwl" (.r "%ax") (.r "%eax"))
+          else emit (ins2 "movswl" (.r "%ax") (.r "%eax"))
+        | _ =>
+          match rb with
+          | some rb =>
+            if ty.size ≤ 16 then do
+              copyRetBuffer env rb
+              emit (ins2 "lea" (rbp (env.off rb)) rax)
+            else pure ()
+          | none => pure ())
+        (8 * (al + stack + selSlots (args.zip flags) false + (if bigV i rb = true then 1 else 0)))
+        (xOf i.ty)
+        (-(al + stack + selSlots (args.zip flags) false + (if bigV i rb = true then 1 else 0))) := by
+    intro st' al hst'
+    subst hst'
+    refine Sem_bind_td hfn (fun _ => ?_)
+    refine (Sem_bind_ret hbr (Ret_bigRet i rb) (fun big hbig => ?_)).cast (r := 0 + _) (x := 0 + _) (d := 0 + _)
+      (Int.zero_add _) (Int.zero_add _) (Int.zero_add _)
+    subst hbig
+    have hcr := fun v => Sem_copyRetBuffer env v
+    cases hb : bigV i rb <;> simp only [hb, Bool.false_eq_true, if_false, if_true] at hpop ⊢ <;>
+      simp only [M_bind_assoc, M_pure_bind] <;> sem_ty
+  cases hb : bigV i rb <;> simp only [hb, Bool.false_eq_true, if_false, if_true] at hrest ⊢
+  · -- no return buffer in memory
+    split <;> simp only [M_bind_assoc, M_pure_bind]
+    · have := hrest (stack + 1) 1 rfl
+      sem
+    · have := hrest stack 0 (by omega)
+      sem
+  · split <;> simp only [M_bind_assoc, M_pure_bind]
+    · have := hrest (stack + 1) 1 rfl
+      sem
+    · have := hrest stack 0 (by omega)
+      sem
+
 end ChibiVerif.Lemmas.C20
